@@ -6,6 +6,11 @@ BASE = "cd /repo && go test -mod=mod -json -vet=off -count=1 -timeout 25m ./..."
 
 CLAIMED = {
  # id: (category, text, design_ref, level_note, technique)
+ "C07": ("other",
+  "Local invariants of the ow-sim hand-off protocol and the offset agreement, decided on the SSA of cmd/ow-sim: tokens on the writer channel are only the writer's own generation posted after writeGeneration(g) or re-posted received tokens; PurgeGeneration is only applied to received tokens (so nothing is purged before it is written); every writer path writes its generation exactly once; writer spawn and final wait share one guard; the final wait leaves only on token == genCount-1; runGeneration(i) dominates the writer spawn and link processing, links add source Outputs into destination Inputs; the loaded row range and the write offset of a generation are computed from the same leaves (0, Batches[g-1], Batches[g]); a generation returned with Count>0 has Inputs/Parameters/States assigned on every feasible path (zero inputs if none stored). Graph semantics, link sums and interleavings are NOT explored.",
+  "DESIGN.md section 2, C07",
+  "Anchors are found structurally (function reaching WriteData, goroutine calling it, its channel). No model checking of the writer/main interleavings; the token argument is an inductive invariant checked by local rules only.",
+  "protocol invariants by dominance/must-pass-through on go/ssa + symbolic leaf comparison of offsets + bool-correlated definite assignment"),
  "C06": ("other",
   "Decides, for every path of each of the 17 stateful kernels and all 41 wrappers, that what is carried between timesteps comes from and goes back to the state vector: every value carried around the time loop (SSA header phi or buffer allocated outside the loop and read before written) that influences outputs is initialised from a STATE argument and reaches a returned state; a state the kernel evolves is not returned unevolved; wrappers read state k into kernel argument nInputs+k and write the kernel's k-th state result back to position k (or extract→kernel→pack in matching order); the two custom pack/extract pairs store the contents of every component and read it at the same symbolic offset. This found five genuine defects (three repaired, two recorded as known findings needing new state variables). Numerical equality of split and unsplit runs is NOT decided.",
   "DESIGN.md section 2, C06",
